@@ -29,12 +29,19 @@ def scratch_repo():
     return d
 
 
-def demo_pkg(demo_path):
+def demo_pkg(demo_path, meta=None):
+    """Package directory the demonstration has to be copied into: named in its header comment (or meta.json),
+    otherwise derived from its package clause."""
     txt = open(demo_path).read()
-    m = re.search(r"copied into\s+`?([\w/\.]+/)`?", txt) or re.search(r"(?:package directory|directory|into)[:\s]+`?((?:mcp|internal/\w+|auth|oauthex|jsonrpc)/?)", txt)
-    pkg = (m.group(1) if m else "mcp/").strip("/")
+    blob = txt[:3000] + " " + json.dumps(meta or {})
+    for pat in (r"(?:copy|copied|copying)\b[^\n]{0,60}?\binto\b[^\n]{0,40}?`?((?:mcp|auth|oauthex|jsonrpc|internal/[\w/]+))/?`?",
+                r"\binto `?((?:mcp|auth|oauthex|jsonrpc|internal/[\w/]+))/`?"):
+        m = re.search(pat, blob)
+        if m:
+            return m.group(1).strip("/")
     m = re.search(r"^package\s+(\w+)", txt, re.M)
-    return pkg
+    pk = (m.group(1) if m else "mcp").replace("_test", "")
+    return {"mcp": "mcp", "auth": "auth", "oauthex": "oauthex", "jsonrpc2": "internal/jsonrpc2", "authutil": "internal/authutil", "jsonrpc": "jsonrpc"}.get(pk, "mcp")
 
 
 def confirm(src, seed_id):
@@ -44,7 +51,7 @@ def confirm(src, seed_id):
     repo = scratch_repo()
     res = {"confirmed_at_repo_commit": sh("git rev-parse --short HEAD", "/repo")[1].strip()}
     try:
-        pkg = demo_pkg(demo)
+        pkg = demo_pkg(demo, meta)
         tests = re.findall(r"^func (Test\w+)\(", open(demo).read(), re.M)
         run = "^(" + "|".join(tests) + ")$"
         dst = os.path.join(repo, pkg, "zz_seed_demo_test.go")
